@@ -372,6 +372,10 @@ M("C03", "gaussianlog-row-label-taken-as-value", F + "gaussianlog.py", r"words =
 M("C02", "pdb-writer-misspells-occupancies-key", F + "pdb.py", r'data\.extra\.get\("occupancies", None\)', 'data.extra.get("occupancy", None)', "C02-R20")
 M("C02", "mol2-reader-renames-charge-key", F + "mol2.py", r'"mol2charges": atchgs', '"mol2": atchgs', "C02-R20")
 
+M("C02", "fchk-gradient-flattened-in-fortran-order", F + "fchk.py", r"data\.atgradient\.flatten\(\)", 'data.atgradient.flatten(order="F")', "C02-R21")
+M("C02", "fchk-hessian-strict-lower-triangle", F + "fchk.py", r"data\.athessian\[np\.tril_indices\(data\.athessian\.shape\[0\]\)\]", "data.athessian[np.tril_indices(data.athessian.shape[0], -1)]", "C02-R21")
+M("C02", "fchk-triangle-reader-without-mirror", F + "fchk.py", r"        result\[: irow \+ 1, irow\] = triangle\[begin:end\]\n", "", "C02-R21")
+
 # ----------------------------------------------------------------------------- additions (fourth round, batch 6)
 M("C07", "extxyz-title-parsed-after-putback", F + "extxyz.py", r"    atom_columns, title_data = _parse_title\(title_line, lit\)\n    lit\.back\(title_line\)\n    lit\.back\(atom_line\)\n", "    lit.back(title_line)\n    lit.back(atom_line)\n    atom_columns, title_data = _parse_title(title_line, lit)\n", "C07-R8")
 M("C07", "mol2-atom-loop-skips-blank-lines", F + "mol2.py", r"(    for i in range\(natoms\):\n        words = next\(lit\)\.split\(\)\n)", "\\1        if not words:\n            continue\n", "C07-R9")
